@@ -49,6 +49,8 @@ type stats struct {
 }
 
 var st stats
+
+var allSites []string
 var refusals []string
 
 func refuse(fset *token.FileSet, pos token.Pos, format string, args ...interface{}) {
@@ -66,6 +68,7 @@ type rewriter struct {
 func main() {
 	root := flag.String("root", "", "root of the scratch copy")
 	pkgs := flag.String("pkgs", "", "comma separated package directories relative to root")
+	sitesOut := flag.String("sites", "", "write the list of yield sites to this file")
 	flag.Parse()
 	if *root == "" || *pkgs == "" {
 		fmt.Fprintln(os.Stderr, "usage: simrewrite -root DIR -pkgs a,b,c")
@@ -135,6 +138,18 @@ func main() {
 	}
 	for _, o := range outs {
 		if err := os.WriteFile(o.path, o.data, 0644); err != nil {
+			fatal(err)
+		}
+	}
+	if *sitesOut != "" {
+		sort.Strings(allSites)
+		var uniq []string
+		for i, x := range allSites {
+			if i == 0 || x != allSites[i-1] {
+				uniq = append(uniq, x)
+			}
+		}
+		if err := os.WriteFile(*sitesOut, []byte(strings.Join(uniq, "\n")+"\n"), 0644); err != nil {
 			fatal(err)
 		}
 	}
@@ -226,6 +241,7 @@ func intLit(i int) *ast.BasicLit {
 
 func (rw *rewriter) yield(pos token.Pos) ast.Stmt {
 	st.yields++
+	allSites = append(allSites, rw.site(pos))
 	return &ast.ExprStmt{X: &ast.CallExpr{Fun: sel("zzsim", "W"), Args: []ast.Expr{strLit(rw.site(pos))}}}
 }
 
